@@ -1033,9 +1033,11 @@ def prove1(hyps2, goal2, budget):
                 return "discharged", time.time() - t0, None, "z3 (quantifier-free hypotheses, definitions opaque)"
     lem = spec_function_lemmas(list(hyps2) + gi, goal2) + gi
     lem0 = spec_function_lemmas(list(hyps2) + gi, goal2, nonlinear=False) + gi
+    # a goal about named specification functions is as nonlinear as their (instantiated) bodies
+    nonlin = goal_is_nonlinear(goal2) or any(is_specfun_app_def(g) and goal_is_nonlinear(g) for g in gi)
     if qf_goal:
         qf = [h for h in hyps2 if not has_quantifier(h)]
-        lemq = [l for l in (lem if goal_is_nonlinear(goal2) else lem0) if not has_quantifier(l)]
+        lemq = [l for l in (lem if nonlin else lem0) if not has_quantifier(l)]
         lemq0 = [l for l in lem0 if not has_quantifier(l)]
         # quantifier-free portfolio: all lemma instances / the linear ones only, a few short restarts each (fresh contexts)
         for seed in (0, 1, 2):
@@ -1043,11 +1045,11 @@ def prove1(hyps2, goal2, budget):
                 r, s = _check(qf, goal2, L, 1200, mbqi=False, seed=seed)
                 if r == z3.unsat:
                     return "discharged", time.time() - t0, None, "z3 (quantifier-free hypotheses)"
-    if qf_goal and goal_is_nonlinear(goal2):
+    if qf_goal and nonlin:
         # phase N: pure polynomial abstraction decided by nlsat
         if nlsat_refutes(qf + lemq, goal2, max(5000, budget * 500)):
             return "discharged", time.time() - t0, None, "z3 nlsat (polynomial abstraction of the quantifier-free hypotheses)"
-    if qf_goal and goal_is_nonlinear(goal2):
+    if qf_goal and nonlin:
         # phase A': products abstracted to an uninterpreted commutative function (linear arithmetic + congruence only),
         # on the quantifier-free hypotheses (which include the instances at the goal's constants)
         try:
@@ -1094,6 +1096,11 @@ def prove1(hyps2, goal2, budget):
         partial = bool(ground_apps(list(hyps2) + [goal2], "Sum_")) or bool(ground_apps(list(hyps2) + [goal2], "rdiv"))
         return "failed", time.time() - t0, s.model(), "z3 sat" + (" (recursive/partial spec functions instantiated finitely: model needs confirmation by replay)" if partial else "")
     return "undecided", time.time() - t0, None, "z3 unknown: %s" % s.reason_unknown()
+
+
+def is_specfun_app_def(g):
+    """ground instance spec_F(args) == body of a named specification function's definition"""
+    return z3.is_eq(g) and z3.is_app(g.arg(0)) and g.arg(0).decl().name().startswith("spec_")
 
 
 def goal_is_nonlinear(t):
